@@ -354,6 +354,20 @@ fn sensitivity(rep: &mut Report, r: &mut Rng, n_cases: u64) {
                 let d = f.stakes[0].1;
                 f.stakes.push((TxHash(HashVal([7u8; 32])), d))
             })),
+            // boundary values: components whose value is zero still count
+            ("stake-amount-zero", Box::new(|f: &mut Fab| f.stakes[0].1.syms_staked = CoinValue(0))),
+            ("extra-stake-of-zero-SYM", Box::new(|f: &mut Fab| {
+                let mut d = f.stakes[0].1;
+                d.syms_staked = CoinValue(0);
+                f.stakes.push((TxHash(HashVal([7u8; 32])), d))
+            })),
+            ("coin-value-zero", Box::new(|f: &mut Fab| f.coins[0].1.coin_data.value = CoinValue(0))),
+            ("extra-coin-of-zero-value", Box::new(|f: &mut Fab| {
+                let mut c = f.coins[0].1.clone();
+                c.coin_data.value = CoinValue(0);
+                f.coins.push((CoinID { txhash: TxHash(HashVal([9u8; 32])), index: 1 }, c))
+            })),
+            ("extra-pool-without-reserves", Box::new(|f: &mut Fab| f.pools.push((PoolKey::new(Denom::Mel, Denom::Custom(TxHash(HashVal([3u8; 32])))), PoolState { lefts: 0, rights: 0, price_accum: 0, liqs: 0 })))),
             ("fee-pool", Box::new(|f: &mut Fab| f.fee_pool += 1)),
             ("fee-multiplier", Box::new(|f: &mut Fab| f.fee_multiplier += 1)),
             ("dosc-speed", Box::new(|f: &mut Fab| f.dosc_speed += 1)),
@@ -395,7 +409,7 @@ pub fn run(p: &Params) -> Report {
     let mine = p.share(total);
     let mut rng = Rng::new(p.shard_seed() ^ 0xC07);
     let mut mon = C07 { rep: Report::new("C07"), case_seed: 0, headers: vec![], r: Rng::new(p.shard_seed() ^ 7) };
-    mon.rep.rule = "cases = (a) every sealed state of random histories on all network classes (sparse and TIP-908 dense transaction commitments): height/previous/network chaining, history(h) for every recorded ancestor, coins/pools/history/stakes/transactions roots recomputed from the iterated contents with an independent reference Merkle function, inclusion proofs for entries (all, or 24 sampled per tree) verified by the library and by the reference verifier, tampered values and absent keys, every block transaction at its sorted position; (b) equal coin/pool maps built by 4 different operation orders incl. create-then-spend detours and overwrites; (c) sibling fabricated states differing in exactly one of 14 components. Non-trivial = sealed state with transactions, each order case, each sibling pair; distinct by header hash / case".into();
+    mon.rep.rule = "cases = (a) every sealed state of random histories on all network classes (sparse and TIP-908 dense transaction commitments): height/previous/network chaining, history(h) for every recorded ancestor, coins/pools/history/stakes/transactions roots recomputed from the iterated contents with an independent reference Merkle function, inclusion proofs for entries (all, or 24 sampled per tree) verified by the library and by the reference verifier, tampered values and absent keys, every block transaction at its sorted position; (b) equal coin/pool maps built by 4 different operation orders incl. create-then-spend detours and overwrites; (c) sibling fabricated states differing in exactly one of 19 components (incl. zero-valued stakes, coins and pools). Non-trivial = sealed state with transactions, each order case, each sibling pair; distinct by header hash / case".into();
     if p.only_case.is_none() {
         mon.rep.require("sealed states checked", p.n(1200, 24000));
         mon.rep.require("single-component sibling pairs", p.n(100, 2000));
